@@ -140,7 +140,7 @@ def run(ck):
                     worst = max(worst, abs(float(acc - mp.mpf(float(Yd[a, o_])))))
             # the memory-light kernel gets its distances from ||x||^2 - 2 x.z + ||z||^2: cancellation leaves an absolute error of about
             # sqrt(u) in small distances (the property itself says 'up to the rounding error of the distance computation')
-            tol2 = tol * 20 + 1e-9 * scale + (n * math.sqrt(u) * scale if kn == 'l2_light' else 0.0)
+            tol2 = tol * 20 + 1e-9 * scale + (4 * n * math.sqrt(u) ** min(1.0, float(m.kernel_obj.exponent)) * scale if kn == 'l2_light' else 0.0)   # d -> d^q amplifies the sqrt(u) error of near-zero distances when q < 1
             ck.count('closed-form Gram residual checked')
             if not (worst <= tol2):
                 ck.violation(f'with the Gram matrix of the documented closed form the residual is {worst:.3g} > {tol2:.3g} on {desc}',
